@@ -49,7 +49,7 @@ def main():
     meta = {'id': name, 'property': prop, 'source_dir': src, 'checks_run': {}, 'confirmed': {}}
     try:
         # the demo refers to the seeding agent's own worktree path: point it at ours
-        demo = re.sub(r'/tmp/seed_C\d+', wt, demo_src)
+        demo = re.sub(r'/tmp/seed2?_C\d+', wt, demo_src)
         demo_path = os.path.join(wt, '_demo.py')
         with open(demo_path, 'w') as f:
             f.write(demo)
@@ -90,7 +90,7 @@ def main():
     os.makedirs(dest, exist_ok=True)
     shutil.copy(patch, os.path.join(dest, 'patch.diff'))
     with open(os.path.join(dest, 'demo.py'), 'w') as f:
-        f.write(re.sub(r'/tmp/seed_C\d+', '/repo', demo_src))
+        f.write(re.sub(r'/tmp/seed2?_C\d+', '/repo', demo_src))
     notes = os.path.join(src, 'notes.md')
     if os.path.exists(notes):
         shutil.copy(notes, os.path.join(dest, 'notes.md'))
